@@ -71,6 +71,18 @@ def gen(rng, tier):
             shape = [rng.randint(1, 5) for _ in range(rng.choice([0, 1, 2, 3]))]
             cases.append({"kind": "elementwise", "cls": cls, "shape": shape, "dt": "float32", "rt": rng.choice(["none", "dict", "file"]),
                           "w_in": "default" if cls == "CubaLIF" else None, "stale": True})
+    # parameters given as views with an unusual memory layout (cyclically permuted axes, fully broadcast, transposed)
+    for _ in range(30 if tier == "quick" else 400):
+        lay = rng.choice(["cyc", "cyc", "bcast0", "bcast0", "T"])
+        if rng.random() < 0.35:
+            shape = [rng.randint(2, 5) for _ in range(rng.choice([3, 4]))]
+            cases.append({"kind": "matvec", "cls": rng.choice(["Affine", "Linear"]), "shape": shape, "dt": "float32",
+                          "rt": rng.choice(["dict", "file", "file"]), "layout": lay})
+        else:
+            cls = rng.choice(list(ELEMENTWISE))
+            shape = [rng.randint(2, 5) for _ in range(rng.choice([1, 2, 3, 3]))]
+            cases.append({"kind": "elementwise", "cls": cls, "shape": shape, "dt": rng.choice(["float32", "float64"]),
+                          "rt": rng.choice(["dict", "file", "file"]), "w_in": "default" if cls == "CubaLIF" else None, "layout": lay})
     # CubaLIF with every admissible form of w_in (lower rank, length-1 axes, scalar, full)
     for _ in range(24 if tier == "quick" else 300):
         rank = rng.choice([1, 2, 2, 3])
@@ -85,8 +97,21 @@ def gen(rng, tier):
     return cases
 
 
+def relayout(a, how):
+    """same shape and values, unusual memory layout"""
+    if how == "cyc" and a.ndim >= 3:
+        return np.moveaxis(np.ascontiguousarray(np.moveaxis(a, 0, -1)), -1, 0)
+    if how == "bcast0" and a.ndim >= 1 and a.size > 1:
+        return np.broadcast_to(a.reshape(-1)[:1].reshape([1] * a.ndim), a.shape)
+    if how == "T" and a.ndim >= 2:
+        return np.ascontiguousarray(a.T).T
+    return a
+
+
 def recipe(c):
     r = recipe0(c)
+    if c.get("layout"):
+        r["args"] = {k: (relayout(v, c["layout"]) if isinstance(v, np.ndarray) else v) for k, v in r["args"].items()}
     if c.get("stale"):
         r["args"]["input_type"] = {"input": np.array([9, 9])}
         r["args"]["output_type"] = {"output": np.array([7])}
@@ -156,7 +181,7 @@ def run(c):
     import nir
     r = recipe(c)
     res = try_build(r)
-    sig = (c["cls"], tuple(c["shape"]), c.get("form"), c.get("dt"), c["rt"], c.get("w_in"), c.get("bias"), c.get("twins"), c.get("stale"))
+    sig = (c["cls"], tuple(c["shape"]), c.get("form"), c.get("dt"), c["rt"], c.get("w_in"), c.get("bias"), c.get("twins"), c.get("stale"), c.get("layout"))
     nontriv = len(c["shape"]) >= 2 or c["rt"] != "none"
     coq = cbuild(r, res) if c["rt"] == "none" and not c.get("stale") else None
     if res[0] != "ok":
